@@ -198,6 +198,14 @@ def run_check(prop: str, repo: str, tier: str, seed: int) -> Ctx:
     return ctx
 
 
+def _normalisation_note(ctx: "Ctx") -> T.Dict[str, T.Any]:
+    from . import normalise
+    return {"what": "functions not in the pinned tree's function list are expanded at their call sites before analysis (sa/normalise.py); renamed functions get their old name back",
+            "expanded_call_sites": {m: mod.expanded_calls for m, mod in ctx.prog.modules.items() if mod.expanded_calls},
+            "helpers_dropped": list(normalise.LAST_RUN.get("dropped", [])),
+            "renames_undone": list(normalise.LAST_RUN.get("renames_undone", []))}
+
+
 def write_evidence(ctx: Ctx, mod: T.Any, wall: float, known_matched: T.List[str], new: T.List[Finding],
                    selftest: T.Optional[T.Dict[str, T.Any]] = None) -> str:
     os.makedirs(EVIDENCE_DIR, exist_ok=True)
@@ -225,6 +233,7 @@ def write_evidence(ctx: Ctx, mod: T.Any, wall: float, known_matched: T.List[str]
         "observations": ctx.observations,
         "notes": ctx.notes,
         "repo": ctx.repo,
+        "normalisation": _normalisation_note(ctx),
         "exhaustive": True,
         "bumpver_imported": "bumpver" in sys.modules,
     }
